@@ -1494,3 +1494,62 @@ def run_one_nack_per_disconnect(run, P, nack='coap_handle_nack', delete='coap_de
             return None
         solve(f, Env(), on_event, None, None, None, key_fn=lambda e: (e.ts.get('inplace'),) + tuple(sorted(k for k in e.ts if k.startswith('sq:'))) + tuple(sorted((k, v[0], v[1], tuple(sorted(v[2]))) for k, v in e.ints.items() if k.startswith('v') and '->' not in k)), max_envs=512)
     run.require_count(n >= 1 or run.cfg != 'base' or run.fixture_mode, 'R-RETRANS (one NACK per disconnect): no in-place report followed by a draining reporter found')
+
+
+def run_delta_inherited(run, P, node_rec='coap_queue_t'):
+    """R-TIMER-REC (the successor inherits the delta): the send queue keeps relative times - `node->t` is the distance to the node in front.  Every
+    explicit unlink of a queue node through the head or a predecessor (`H = q->next` with H `X->sendqueue`, `p->next` or `*p`, q a coap_queue_t)
+    is accompanied on every path to the end of its block... in the same function, after the unlink, by `q->next->t += q->t` (what is behind q keeps
+    its deadline), as coap_remove_from_queue() does.  Unlinks of the DELAY queue (absolute order, no times) and expansions of the generic
+    LL_DELETE macro are not judged."""
+    run.rule('R-TIMER-REC')
+    n = 0
+    for f in sorted(P.lib_funcs(), key=lambda f: f['name']):
+        B = f['B']
+        for b, ev in P.events(f):
+            t = ev['e']
+            if not (t.get('k') == 'asg' and t.get('op') == '=' and ev.get('top')):
+                continue
+            if any(m.startswith('LL_') for m in (ev.get('mac') or ())):
+                continue
+            l, r = strip(t['l']), strip(t['r'])
+            if not (isinstance(r, dict) and r.get('k') == 'mem' and r.get('f') == 'next' and r.get('rec') == node_rec and ap(r.get('b'))):
+                continue
+            q = ap(r['b'])
+            head = None
+            if isinstance(l, dict) and l.get('k') == 'mem' and l.get('f') == 'sendqueue':
+                head = 'head'
+            elif isinstance(l, dict) and l.get('k') == 'mem' and l.get('f') == 'next' and l.get('rec') == node_rec and ap(l.get('b')) != q:
+                head = 'pred'
+            elif isinstance(l, dict) and l.get('k') == 'un' and l.get('op') == '*' and isinstance(strip(l.get('e')), dict) and strip(l['e']).get('k') == 'var' and '**' in (strip(l['e']).get('t') or '').replace(' ', ''):
+                head = 'indirect'
+            if not head:
+                continue
+            if head != 'head':
+                # only in functions that work on the send queue
+                if not any(isinstance(y, dict) and y.get('k') == 'mem' and y.get('f') == 'sendqueue' for b2, e2 in P.events(f) for y in walk(e2['e'])) and \
+                   not any(isinstance(y, dict) and y.get('k') == 'mem' and y.get('f') == 'sendqueue' for b2 in f['blocks'] for y in walk((b2.get('term') or {}).get('cond') or {})):
+                    continue
+            # cursor advance `q = q->next` / iteration is not an unlink: the left side must not be the cursor itself
+            n += 1
+            run.instance('R-TIMER-REC', '%s: unlink (%s) at %s' % (f['name'], head, ev['loc'].rsplit(':', 1)[-1]))
+            ok = False
+            # the removed node may be named through a local that was assigned from the same expression before (`next = context->sendqueue;`)
+            names = {q}
+            for b3, e3 in P.events(f):
+                t3 = e3['e']
+                if t3.get('k') == 'asg' and t3.get('op') == '=' and ap(t3['r']) == q and ap(t3['l']):
+                    names.add(ap(t3['l']))
+            for bid, evs in _reach_blocks(f, b['id'], ev):
+                for e2 in evs:
+                    t2 = e2['e']
+                    if t2.get('k') == 'asg' and t2.get('op') == '+=':
+                        l2 = strip(t2['l'])
+                        if isinstance(l2, dict) and l2.get('k') == 'mem' and l2.get('f') == 't' and any(isinstance(y, dict) and y.get('k') == 'mem' and y.get('f') == 't' and ap(y.get('b')) in names for y in walk(t2['r'])):
+                            ok = True
+            run.oblige('R-TIMER-REC', ok, '%s:delta-inherited' % f['name'])
+            if not ok:
+                run.violation('R-TIMER-REC', f['name'], ev['loc'], 'unlink-drops-delta:%s' % head,
+                              'the node is unlinked from the send queue (%s) and its relative time is not added to its successor anywhere behind the unlink: every node behind it '
+                              'fires early by that amount (a retransmission long before T has elapsed)' % short(t)[:50])
+    run.require_count(n >= (3 if run.cfg == 'base' else 1) or run.fixture_mode, 'R-TIMER-REC (delta inherited): fewer than 3 explicit unlinks from the send queue found')
